@@ -141,6 +141,7 @@ METHODS = {
     "A.m": (A, "m", "V", ()),                          # placeholder: the method under construction itself
     "A.n": (A, "n", "V", ()),                          # another method of A (extended singles only)
     "E.x": (E, "x", "V", ("I",)),                      # external class
+    "E.x2": (E, "x", "V", ()),                         # external overload: same class and name, other descriptor
     "OA.clone": ("[" + OBJ, "clone", OBJ, ()),         # array receiver, element class external
     "BA.clone": ("[" + B, "clone", OBJ, ()),           # array receiver whose element class DEFINES clone()
 }
@@ -164,7 +165,7 @@ TYPES = [B, A, E, "[" + B, "[I"]
 TYPE_OPS = ["new-instance", "const-class"]
 NOISE = [("check-cast", B), ("instance-of", B), ("new-array", "[" + B)]   # type references that are NOT class-usage xrefs
 
-SEQ_METHOD_TARGETS = ["B.t", "B.u", "A.m", "E.x", "OA.clone", "BA.clone"]
+SEQ_METHOD_TARGETS = ["B.t", "B.u", "A.m", "E.x", "E.x2", "OA.clone", "BA.clone"]
 
 
 def _alphabet(method_targets, field_ops):
